@@ -1,6 +1,7 @@
 package main
 
 import (
+	"github.com/pip-services3-gox/pip-services3-expressions-gox/csv"
 	"fmt"
 
 	sio "github.com/pip-services3-gox/pip-services3-expressions-gox/io"
@@ -46,7 +47,8 @@ func tok1(t *tokenizers.Token) []any {
 func execC05(seg []Ev) []Ev {
 	var t tokenizers.ITokenizer
 	kind, bits := "", 0
-	var added [][2]any // symbols registered on the long-lived tokenizer so far: a new one gets the same
+	var csvSeps, csvQuotes []rune // the CSV dialect set last on the long-lived tokenizer
+	var added [][2]any            // symbols registered on the long-lived tokenizer so far: a new one gets the same
 	fresh := func(input string) [][]any {
 		f := newTokenizer(kind)
 		if bits >= 0 {
@@ -54,6 +56,12 @@ func execC05(seg []Ev) []Ev {
 		}
 		for _, a := range added {
 			f.SymbolState().Add(a[0].(string), a[1].(int))
+		}
+		if ct, ok := f.(*csv.CsvTokenizer); ok && csvSeps != nil {
+			// the dialect set last (a new tokenizer is given only that one)
+			ct.SetFieldSeparators([]rune{0x1})
+			ct.SetQuoteSymbols(csvQuotes)
+			ct.SetFieldSeparators(csvSeps)
 		}
 		return tokJSON(f.TokenizeBuffer(input))
 	}
@@ -80,6 +88,14 @@ func execC05(seg []Ev) []Ev {
 				bits = optBits(in["opts"])
 				e["opts"] = optList(bits)
 				setOpts(t, bits)
+			}
+		case "csvconf": // another CSV dialect on a tokenizer that has been used
+			csvSeps, csvQuotes = toRunes(in["seps"]), toRunes(in["quotes"])
+			e["seps"], e["quotes"] = cpsR(csvSeps), cpsR(csvQuotes)
+			if ct, ok := t.(*csv.CsvTokenizer); ok {
+				ct.SetFieldSeparators([]rune{0x1})
+				ct.SetQuoteSymbols(csvQuotes)
+				ct.SetFieldSeparators(csvSeps)
 			}
 		case "addsym": // a symbol is registered on a tokenizer that has already been used
 			sym, typ := string(toRunes(in["sym"])), toInt(in["type"])
@@ -237,6 +253,20 @@ func genC05(g *Gen) {
 					{"op": "addsym", "sym": cps(sy[0]), "type": 7}, {"op": "buffer", "input": cps(sy[1])}, {"op": "buffer", "input": cps(sy[0])},
 					{"op": "addsym", "sym": cps(sy[0] + sy[0][:1]), "type": 10}, {"op": "buffer", "input": cps(sy[1] + sy[0] + sy[0][:1])}, {"op": "setreader", "input": cps(sy[1])}, {"op": "next"}, {"op": "next"}, {"op": "next"}, {"op": "next"}}
 				g.Run("symbols registered after use:"+kind, seg)
+			}
+		}
+		// (2b'') CSV dialects that follow one another on one tokenizer (also characters beyond the configured range as separators / quotes)
+		if kind == "csv" {
+			dialects := [][2][]rune{{{';'}, {'\''}}, {{0x1F600}, {'"'}}, {{','}, {0x1F601}}, {{0xFFFF}, {'"'}}, {{0x10000, '|'}, {0x10FFFF}}, {{','}, {'"'}}, {{0x2502}, {0xAB}}}
+			text := "a😀b;c,\U0001f601q\U0001f601|d\uffffe\U00010000f\U0010ffffg\U0010ffff│«h«\r\n'i;j',\"k\""
+			for i, d1 := range dialects {
+				for j, d2 := range dialects {
+					if i == j {
+						continue
+					}
+					g.Run("CSV dialects that follow one another", []Ev{{"op": "new", "kind": kind, "opts": []any{}}, {"op": "csvconf", "seps": cpsR(d1[0]), "quotes": cpsR(d1[1])}, {"op": "buffer", "input": cps(text)},
+						{"op": "csvconf", "seps": cpsR(d2[0]), "quotes": cpsR(d2[1])}, {"op": "buffer", "input": cps(text)}, {"op": "csvconf", "seps": cpsR(d1[0]), "quotes": cpsR(d1[1])}, {"op": "buffer", "input": cps(text)}})
+				}
 			}
 		}
 		// (2c) the same scanner object reset and attached again with a look-ahead token pending; options set after the reader
